@@ -215,3 +215,6 @@ def run(ck, F):
     # are written with that prefix; the derived struct has to declare it, or the member is not the base's member any more
     from rules import c03 as C03
     C03.run(C04._Sub(ck, "R5", lambda key: "member-prefix" in key or "floor" in key or "nsmap" in key or "prefix" in key, only_rules=("R3",)), F)
+    # and a base that is found by the tree search (it follows the derived type) is converted under its own schema's namespace
+    from rules import c10 as C10
+    C10.rule_component_read_out_of_turn(C04._Sub(ck, "R5", lambda key: key.startswith("out-of-turn") or "floor" in key), F, rule="R6")
